@@ -27,6 +27,7 @@ def run(c):
     r4(c, db)
     r5(c, db)
     r6(c)
+    r7(c)
 
 
 def hw_chains_in_python(repo):
@@ -436,3 +437,90 @@ def r6(c):
     e = [st for st in hv.body if isinstance(st, ast.FunctionDef) and st.name == "__eq__"]
     ok = bool(h) and bool(e) and "self.model" in norm(h[0]) and "self.model == other.model" in norm(e[0])
     c.check("C18.R6", ok, repo.loc(hm, hv), "HardwareView/__hash__,__eq__", "HardwareView identity is not the model string: cached rulebooks could be shared between different models", key_text="hw-identity")
+
+
+def import_graph(repo):
+    """module -> modules imported by its top-level statements at import time (bodies of `if TYPE_CHECKING:` excluded)"""
+    graph = {}
+    for name, m in repo.modules.items():
+        deps = set()
+        todo = list(m.tree.body)
+        while todo:
+            st = todo.pop()
+            if isinstance(st, ast.If):
+                if "TYPE_CHECKING" in norm(st.test):
+                    todo.extend(st.orelse)
+                else:
+                    todo.extend(st.body + st.orelse)
+                continue
+            if isinstance(st, ast.Try):
+                todo.extend(st.body + st.orelse + st.finalbody + [x for h in st.handlers for x in h.body])
+                continue
+            if isinstance(st, ast.Import):
+                for a in st.names:
+                    if a.name in repo.modules:
+                        deps.add(a.name)
+            elif isinstance(st, ast.ImportFrom):
+                base = st.module or ""
+                if st.level:
+                    pkg = name if m.is_pkg else name.rsplit(".", 1)[0]
+                    for _ in range(st.level - 1):
+                        pkg = pkg.rsplit(".", 1)[0]
+                    base = (pkg + "." + base) if base else pkg
+                if base in repo.modules:
+                    deps.add(base)
+                for a in st.names:
+                    if base + "." + a.name in repo.modules:
+                        deps.add(base + "." + a.name)
+        graph[name] = deps - {name}
+    return graph
+
+
+def cycles(graph):
+    import sys as _sys
+    _sys.setrecursionlimit(max(_sys.getrecursionlimit(), 10000))
+    idx, low, st, on, res, i = {}, {}, [], set(), [], [0]
+
+    def sc(v):
+        idx[v] = low[v] = i[0]
+        i[0] += 1
+        st.append(v)
+        on.add(v)
+        for w in graph.get(v, ()):
+            if w not in idx:
+                sc(w)
+                low[v] = min(low[v], low[w])
+            elif w in on:
+                low[v] = min(low[v], idx[w])
+        if low[v] == idx[v]:
+            comp = []
+            while True:
+                w = st.pop()
+                on.discard(w)
+                comp.append(w)
+                if w == v:
+                    break
+            if len(comp) > 1:
+                res.append(sorted(comp))
+    for v in sorted(graph):
+        if v not in idx:
+            sc(v)
+    return res
+
+
+def r7(c):
+    repo = c.repo
+    c.rule("C18.R7", "custom logic modules load in any order: the import graph of the modules under annet.rulebook.<vendor> (top-level imports, wherever in the file, `if "
+                     "TYPE_CHECKING` bodies excluded) has no cycle — import_rulebook_function swallows ImportError, so a module that only imports cleanly when another one was "
+                     "loaded first turns into `Could not import ...` for whichever rulebook happens to be loaded first in the process")
+    g = import_graph(repo)
+    logic = [n for n in g if n.startswith("annet.rulebook.") and n.count(".") >= 3]
+    c.floor("C18.R7", "vendor logic modules", len(logic), 14)
+    c.analysed["import_graph_modules"] = len(g)
+    bad = [cy for cy in cycles(g) if any(n in logic for n in cy)]
+    for cy in bad:
+        a = [n for n in cy if n in logic][0]
+        c.violated("C18.R7", repo.module(a).rel, f"import-cycle:{'+'.join(x.split('annet.rulebook.')[-1] for x in cy if x in logic)}", f"modules {cy} import each other at load time: which of them "
+                   "can be imported first depends on the order rulebooks are loaded in", key_text="cycle:" + "+".join(cy))
+    if not bad:
+        c.holds("C18.R7", "annet/rulebook", "vendor-logic-import-graph", f"{len(logic)} modules, no cycle")
